@@ -2,6 +2,7 @@ package main
 
 import (
 	"go/constant"
+	"regexp"
 	"strings"
 
 	"golang.org/x/tools/go/ssa"
@@ -191,6 +192,34 @@ func c14(c *Ctx) {
 		}
 	}
 
+	{
+		// the position remembered for a snapshot upload is the snapshot's own header/trailer, not a later db.Pos()
+		ret := strings.Join(c.returnsMatchingIdxOK(ss, 0), ";")
+		snapPos := pat("ltx.NewPos(litefs.(*DB).WriteSnapshotTo(@@)#0.MaxTXID, litefs.(*DB).WriteSnapshotTo(@@)#1.PostApplyChecksum)")
+		ok := false
+		detail := "returned position originates from " + ret
+		if strings.Contains(ret, "WriteSnapshotTo(") && !strings.Contains(ret, "litefs.(*DB).Pos(") {
+			ok = true
+		} else if ret == "sync/atomic.(*Value).Load(&new(sync/atomic.Value)).(ltx.Pos)" {
+			cl2 := c.anonWith(ss, p.Calls("litefs.(*DB).WriteSnapshotTo"))
+			if cl2 != "" {
+				for _, a := range c.CallArgs(cl2, p.Calls("sync/atomic.(*Value).Store"), 1) {
+					if regexpMatch(snapPos, a) {
+						ok = true
+					} else {
+						detail = "the snapshot goroutine publishes " + a
+					}
+				}
+			}
+		}
+		d := "streamBackupDBSnapshot reports the position of the snapshot it uploaded (MaxTXID of its header, post-apply checksum of its trailer), handed over from the snapshot goroutine"
+		if !ok {
+			c.fail("snapshot/returns-uploaded-pos", "K6 Origin", d, "a commit that lands between the snapshot and the acknowledgement must not be recorded as uploaded: the service would be believed to hold a transaction it never received", detail, 1)
+		} else {
+			c.ok("snapshot/returns-uploaded-pos", "K6 Origin", d, 1)
+		}
+	}
+
 	// ---- service side: file client ----
 	fw := "litefs.(*FileBackupClient).WriteTx"
 	rename := p.PlainCalls("os.Rename")
@@ -270,4 +299,8 @@ func (c *Ctx) returnsMatchingIdxOK(fname string, idx int) []string {
 		}
 	}
 	return out
+}
+
+func regexpMatch(re, s string) bool {
+	return regexp.MustCompile("^(?:" + re + ")$").MatchString(s)
 }
